@@ -10,10 +10,10 @@ RUNNER = "impl_m2.py"
 N = {"quick": 700, "thorough": 25000}
 LEVEL_RULE = ("event trees (depth <= 3, sequences and simultaneities) whose nodes (leaves included) carry a tempo: constant tempi on a "
               "random subset of nodes, at most one trajectory (2-5 points, curved; a quarter of those with >= 3 points leave 60 bpm and return to it) per root-to-leaf path; plus a mixed stream with a "
-              "trajectory below a trajectory (outside the model: only the implementation-side clauses are checked there). "
+              "trajectory below a trajectory: half of it step curves on every level (modelled by the step model of Model/MetrizeSteps.v: pieces between tempo changes, products of the levels), the other half curved (outside the model: only the implementation-side clauses are checked there). "
               "EventToMetrizedEvent.convert, the in-place metrize() on a copy, and a second metrize are run. "
               "non-trivial = at least two tempo-carrying nodes on one path, or a trajectory node")
-ASSUMPTIONS = ASSUMPTIONS_M2 + ["metrize model: constant tempi multiply, one trajectory per path integrates; a trajectory below a trajectory is not modelled (model returns an error, the case is then checked by the oracle only)",
+ASSUMPTIONS = ASSUMPTIONS_M2 + ["metrize model: constant tempi multiply, one trajectory per path integrates; a trajectory below a trajectory is modelled when all trajectories on the path are step curves (metrize2), otherwise the model returns an error and the case is checked by the oracle only",
                                 "every pass rounds durations to 1e-10, so results are compared within 1e-9 relative + (depth+1)*2e-10 s"]
 TRUSTED = TRUSTED_M2
 
